@@ -1,6 +1,6 @@
 # table consumed by tools_manifest.py
 ENGINES = [
-    {"name": "vv", "path": "vv/", "serves_properties": ["C05", "C06", "C07", "C09", "C13", "C15", "C17", "C18", "C19"], "kind_free_text": "runtime monitors: generators, independent flatbuffer reader/writer, compile drivers, sharded worker harness, evidence/findings"},
+    {"name": "vv", "path": "vv/", "serves_properties": ["C04", "C05", "C06", "C07", "C09", "C13", "C15", "C17", "C18", "C19"], "kind_free_text": "runtime monitors: generators, independent flatbuffer reader/writer, compile drivers, sharded worker harness, evidence/findings"},
 ]
 NOTES = ("Technique family: runtime monitoring and sanitizers. Every check runs the real code from /repo's working tree (codec rebuilt from the C "
          "sources on every run) under generated workloads with oracles observing executions; verdicts are violated / held-on-what-was-observed / "
@@ -83,3 +83,13 @@ check("C15", "exploration",
       "kernel operation of real compilations.",
       "Minimum IFM block / granule tables are frozen hardware facts as I read them; 'large enough' is a >= test.",
       "runtime contract on query results + register oracle", "DESIGN.md 4/C15")
+
+check("C04", "exploration",
+      "Offline trace checker over decoded command streams (DESIGN Appendix D): both queues are simulated from the emitted KERNEL_WAIT/DMA_WAIT commands with the U55/U65 "
+      "outstanding limits and every operation is tested at issue against all operations of the other queue that may still be outstanding, using exact byte footprints (tiles, "
+      "strides, NHCWB16 bricks, consumed rows/cols, per-core weight ranges, SHRAM buffers and table slots); consecutive kernels are tested per block job for the overlap the "
+      "emitted BLOCKDEP allows (true dependencies; the block pipeline is in order) plus the table-still-being-read clause. Workload: random DMA/kernel lists over a 2-4 buffer "
+      "pool through the public generator, and every stream of real compilations. Conflicts that exist and are guarded are counted; a run without them is inconclusive.",
+      "Execution and block-job model are my reading of the architecture (the one stated in the property); kernel-kernel WAR/WAW are ordered by the in-order block pipeline and "
+      "are not hazards (DESIGN section 8).",
+      "offline runtime trace checker (hazard simulation over recorded command streams)", "DESIGN.md 4/C04")
